@@ -36,6 +36,8 @@ func c17(c *Ctx) {
 	c17R6(c, "R6")
 	c17R7(c, "R7")
 	sMainSendsBuffered(c, "R8/S-MAINSEND")
+	c13R1(c, "R9/C13.R1")
+	sCommitCoversConfig(c, "R9/S-COMMITCFG")
 }
 
 func loopSelect(c *Ctx, fn *ssa.Function) *ssa.Select {
@@ -207,17 +209,7 @@ func c17R2(c *Ctx, rule string) {
 		})
 		c.Check(rule, "appendConfigurationEntry:dispatches-own-future", c.P.Pos(fn.Pos()), "the dispatched future is the request's embedded logFuture", okArg, pick(okArg, "&future.logFuture", "something else"), 1)
 	}
-	if lt := c.Fn(rule, "(*Raft).leadershipTransfer"); lt != nil {
-		r := c.Run(&engine.Automaton{Fn: lt, Tracks: []engine.Track{
-			engine.Event("reported", func(in ssa.Instruction) bool {
-				s, ok := in.(*ssa.Send)
-				return ok && c.P.D(s.Chan) == "p5"
-			}),
-		}})
-		for i, ret := range engine.ReturnsOf(lt) {
-			c.RequireAt(r, rule, fmt.Sprintf("leadershipTransfer:always-reports-on-doneCh#%d", i+1), ret, "every exit of the transfer worker sends its outcome on doneCh (the bookkeeping goroutine waits for it before it clears leadershipTransferInProgress)", func(v engine.View) bool { return v.Seen("reported") })
-		}
-	}
+	sTransferWorkerReports(c, rule)
 	if fn := c.Fn(rule, "(*Raft).leaderLoop$go"); fn != nil {
 		r := c.Run(&engine.Automaton{Fn: fn, Tracks: []engine.Track{
 			engine.Event("answered", func(in ssa.Instruction) bool {
@@ -674,5 +666,24 @@ func c17R7(c *Ctx, rule string) {
 			}
 		})
 		c.Check(rule, "vote:reports-on-notifyCh", c.P.Pos(vf.Pos()), "vote hands a decided future back on its notifyCh", sends >= 1, fmt.Sprintf("%d sends", sends), 1)
+	}
+}
+
+
+// sTransferWorkerReports: the leadership-transfer worker sends its outcome on
+// doneCh at every exit; the bookkeeping goroutine waits for it before it
+// clears leadershipTransferInProgress, and until then the leader refuses every
+// write.
+func sTransferWorkerReports(c *Ctx, rule string) {
+	if lt := c.Fn(rule, "(*Raft).leadershipTransfer"); lt != nil {
+		r := c.Run(&engine.Automaton{Fn: lt, Tracks: []engine.Track{
+			engine.Event("reported", func(in ssa.Instruction) bool {
+				s, ok := in.(*ssa.Send)
+				return ok && c.P.D(s.Chan) == "p5"
+			}),
+		}})
+		for i, ret := range engine.ReturnsOf(lt) {
+			c.RequireAt(r, rule, fmt.Sprintf("leadershipTransfer:always-reports-on-doneCh#%d", i+1), ret, "every exit of the transfer worker sends its outcome on doneCh (the bookkeeping goroutine waits for it before it clears leadershipTransferInProgress)", func(v engine.View) bool { return v.Seen("reported") })
+		}
 	}
 }
